@@ -127,6 +127,38 @@ Proof.
   apply Forall_app; auto.
 Qed.
 
+(* shapes of the block-diagonal / identity matrices *)
+Definition rect (U : list (list F)) : Prop := Forall (fun row => length row = ncols U) U.
+
+Lemma zeros_length n : length (zeros n) = n.
+Proof. apply repeat_length. Qed.
+
+Lemma bdiag_repeat_shape T M : T <> [] -> rect T ->
+  ncols (bdiag (repeat T M)) = M * ncols T /\
+  Forall (fun row => length row = M * ncols T) (bdiag (repeat T M)).
+Proof.
+  intros Hne HT. induction M as [|M [IH1 IH2]]; [split; [reflexivity|constructor]|].
+  cbn [repeat bdiag]. split.
+  - destruct T as [|r0 T']; [congruence|]. unfold ncols at 1. cbn [map app hd].
+    rewrite app_length, zeros_length, IH1. reflexivity.
+  - apply Forall_app. split; apply Forall_forall; intros row Hin; apply in_map_iff in Hin;
+      destruct Hin as [r [<- Hr]]; rewrite app_length, zeros_length.
+    + unfold rect in HT. rewrite Forall_forall in HT. rewrite (HT _ Hr), IH1. lia.
+    + rewrite Forall_forall in IH2. rewrite (IH2 _ Hr). lia.
+Qed.
+
+Lemma ident_shape n : ncols (ident n) = n /\ Forall (fun row => length row = n) (ident n).
+Proof.
+  induction n as [|n [IH1 IH2]]; [split; [reflexivity|constructor]|].
+  cbn [ident]. split; [unfold ncols; cbn; now rewrite zeros_length|].
+  constructor; [cbn; now rewrite zeros_length|].
+  apply Forall_forall. intros row Hin. apply in_map_iff in Hin. destruct Hin as [r [<- Hr]].
+  rewrite Forall_forall in IH2. cbn. now rewrite (IH2 _ Hr).
+Qed.
+
+Lemma concat_P (b : list (list X)) : Forall (Forall P) b -> Forall P (concat b).
+Proof. induction 1; cbn; [constructor|]. now apply Forall_app. Qed.
+
 Hypothesis A0r : forall x, P x -> xadd x xzero = x.
 Hypothesis S1 : forall x, P x -> xscale (f1 K) x = x.
 
@@ -142,6 +174,54 @@ Proof.
 Qed.
 End Laws.
 End Lin.
+
+(* The module of rows of width [w] over a module [X] with laws relativised to [P]:
+   its laws, relativised to "has width w and entries in P". *)
+Section Rows.
+Context {F : Type} (K : Fops F).
+Context {X : Type} (xzero : X) (xadd : X -> X -> X) (xscale : F -> X -> X).
+Context (P : X -> Prop).
+Hypothesis Pz : P xzero.
+Hypothesis Pa : forall x y, P x -> P y -> P (xadd x y).
+Hypothesis Ps : forall t x, P x -> P (xscale t x).
+Hypothesis A0l : forall x, P x -> xadd xzero x = x.
+Hypothesis A0r : forall x, P x -> xadd x xzero = x.
+Hypothesis S0 : forall x, P x -> xscale (f0 K) x = xzero.
+Hypothesis S1 : forall x, P x -> xscale (f1 K) x = x.
+
+Definition Prow (w : nat) (x : list X) : Prop := length x = w /\ Forall P x.
+
+Lemma Prow_zero w : Prow w (rzero xzero w).
+Proof. split; [apply repeat_length|]. apply Forall_forall. intros x Hx. apply repeat_spec in Hx. now subst. Qed.
+
+Lemma Prow_add w x y : Prow w x -> Prow w y -> Prow w (radd xadd x y).
+Proof.
+  intros [Lx Hx] [Ly Hy]. split; [unfold radd; rewrite map2_length; lia|].
+  unfold radd. clear Lx Ly. revert y Hy. induction Hx as [|a x Ha Hx IH]; intros [|b y] Hy; cbn; try constructor.
+  - inversion Hy; subst. auto.
+  - inversion Hy; subst. auto.
+Qed.
+
+Lemma Prow_scale w t x : Prow w x -> Prow w (rscale xscale t x).
+Proof. intros [Lx Hx]. split; [unfold rscale; now rewrite map_length|].
+  clear Lx. unfold rscale. induction Hx; cbn; constructor; auto. Qed.
+
+Lemma row_A0l w x : Prow w x -> radd xadd (rzero xzero w) x = x.
+Proof. intros [Lx Hx]. subst w. unfold radd, rzero. induction Hx as [|a x Ha Hx IH]; cbn; [reflexivity|].
+  now rewrite IH, A0l. Qed.
+
+Lemma row_A0r w x : Prow w x -> radd xadd x (rzero xzero w) = x.
+Proof. intros [Lx Hx]. subst w. unfold radd, rzero. induction Hx as [|a x Ha Hx IH]; cbn; [reflexivity|].
+  now rewrite IH, A0r. Qed.
+
+Lemma row_S0 w x : Prow w x -> rscale xscale (f0 K) x = rzero xzero w.
+Proof. intros [Lx Hx]. subst w. unfold rscale, rzero. induction Hx as [|a x Ha Hx IH]; cbn; [reflexivity|].
+  now rewrite IH, S0. Qed.
+
+Lemma row_S1 w x : Prow w x -> rscale xscale (f1 K) x = x.
+Proof. intros [Lx Hx]. clear Lx. unfold rscale. induction Hx as [|a x Ha Hx IH]; cbn; [reflexivity|].
+  now rewrite IH, S1. Qed.
+End Rows.
 
 (* nth through concat of equally long pieces is not needed: the theorems are
    stated structurally (concat / map) and index-wise only at the outermost level. *)
